@@ -42,6 +42,9 @@ T = {
  "C16": ("C16 link", "explicit-state search of every reachable state of link-wrapped systems over lossy duplicating/reordering networks within a network-size boundary, invariants evaluated in every state",
          "model_checking", "In every reachable state the handed-over sequence is a prefix of the sent one, nothing is acknowledged (no longer retransmitted) before it was handed over, and all-acknowledged implies equality.",
          "states de-duplicated on the subject's own Hash/Eq (validated separately by C04); pending acknowledgements observed through what the link would retransmit; wrapped state through hook H5", "DESIGN §4 C16"),
+ "C17": ("E6 vnet", "exhaustive enumeration of environment answer sequences (to a depth; beyond it deviation-bounded) for the real spawn() event loop running on real threads over a virtual socket and clock; arithmetic sweep of the Id <-> address conversion",
+         "model_checking", "For every answer sequence within the bounds: on_start first and once; every on_msg corresponds to a delivered decodable IPv4 datagram with the right Id and message; every Send is one datagram to the encoded address, in order; a timer fires only while armed and not before the lower bound of its latest arming; every handler sees the previous state. Id<->address: 2^24 (thorough 2^32) addresses x 4 ports, 2^16 ports x 16 addresses, per-byte sweep.",
+         "the actor threads run freely but only ever block in recv_from, which the controller answers at quiescence; the virtual clock ticks 1 ns per read; on_random is outside the statement; the 2^48 product space is covered per dimension, not jointly", "DESIGN §4 C17"),
  "C20": ("C20 laws", "exhaustive enumeration of all small vector clocks (pairs, triples) and dense maps (construction orders, inserts, plans)",
          "model_checking", "Partial-order laws, equality up to trailing zeros, hash consistency, merge_max = least upper bound within the domain, increment strictly greater; dense maps order-independent, gap/duplicate rejection, insert semantics, rewrite moves values to rewritten keys.",
          "least-upper-bound minimality is checked against all upper bounds inside the enumerated domain", "DESIGN §4 C20"),
@@ -88,6 +91,7 @@ m = {
            "source_commits": hook_commits, "add_only": True},
  "engines": [
    {"name": "E2 sched", "path": "harness/src/engines/e2.rs + harness/src/sched.rs", "serves_properties": ["C05","C12","C03"], "kind_free_text": "controlled scheduler over the real worker threads / job market: preemption-bounded stateless DFS over schedules, virtual clock"},
+   {"name": "E6 vnet", "path": "harness/src/engines/e6.rs", "serves_properties": ["C17"], "kind_free_text": "virtual UDP socket + clock environment under the real spawn(); answer-sequence enumeration with deviation bounding"},
    {"name": "E3 actorstep", "path": "harness/src/engines/e3.rs", "serves_properties": ["C06","C07","C09"], "kind_free_text": "explicit enumeration of actor-system states/actions/handler outputs on the real ActorModel vs a reference interpreter; xplore over scripted systems"},
    {"name": "E4 identity", "path": "harness/src/engines/e4.rs", "serves_properties": ["C04"], "kind_free_text": "all pairs of small values: recording hasher stream, real fingerprint, component-wise identity"},
    {"name": "E5 histories", "path": "harness/src/engines/e5.rs", "serves_properties": ["C08","C14","C18"], "kind_free_text": "all small concurrent histories on the real testers vs definition-level search"},
